@@ -9,6 +9,15 @@ Named(t) == CASE t \in {0, 4, 7} -> "sbc"      \* direct access, write-once, opt
               [] t = 5 -> "mmc"                 \* CD/DVD
               [] t = 8 -> "smc"                 \* media changer
               [] OTHER -> ""
+\* Commands the facade finds by operation code rather than by name, after an attach: SERVICE ACTION IN(16)
+\* 9Eh (READ CAPACITY(16), GET LBA STATUS) is a block command (SBC-3 table 14); MAINTENANCE IN A3h (REPORT
+\* TARGET PORT GROUPS, REPORT PRIORITY) is SPC's and is carried by SBC / SSC / SMC, while MMC gives A3h to
+\* SEND KEY.  What a probe sends depends on the set selected for THIS device only.
+Offers(set, code) == CASE code = "9E" -> set = "sbc"
+                       [] code = "A3" -> set \in {"spc", "sbc", "ssc", "smc"}
+                       [] OTHER -> FALSE
+CodeByte(code) == IF code = "9E" THEN 158 ELSE 163
+ProbeExpected(set, code) == IF Offers(set, code) THEN <<CodeByte(code)>> ELSE <<>>
 \* the one standard INQUIRY an attach sends: 12h, EVPD 0, page code 0, allocation length >= 5, control 0
 IsStdInquiry(cdb) == Len(cdb) = 6 /\ cdb[1] = 18 /\ cdb[2] % 2 = 0 /\ cdb[3] = 0 /\ (cdb[4] * 256 + cdb[5]) >= 5 /\ cdb[6] = 0
 =============================================================================
